@@ -46,14 +46,14 @@ package lua
 // the preload searcher: reads <env>.package.preload[name] (three reads, in that order) and returns that entry when it is not nil,
 // otherwise a message string; it runs nothing and stores nothing
 //@ func loLoaderPreload [C20]
-//@ requires ReqOK(L) && L.currentFrame.Fn != nil
+//@ requires ReqOK(L) && L.currentFrame.Fn != nil && L.currentFrame.Fn.Env != nil
 //@ ensures  "reads-preload": ncalls() == old(ncalls()) + 3 && callfn(old(ncalls())) == gfs() && callargLV(old(ncalls()), 1) == old(mkTab(L.currentFrame.Fn.Env)) && callargStr(old(ncalls()), 2) == "package" && callfn(old(ncalls()) + 1) == gfs() && callargLV(old(ncalls()) + 1, 1) == callresLV(old(ncalls()), 0) && callargStr(old(ncalls()) + 1, 2) == "preload" && callfn(old(ncalls()) + 2) == gfs() && callargLV(old(ncalls()) + 2, 1) == callresLV(old(ncalls()) + 1, 0) && callargStr(old(ncalls()) + 2, 2) == old(str(arg(L, 1)))
 //@ ensures  "returns-entry": result == 1 && top(L) == old(top(L)) + 1 && isTab(callresLV(old(ncalls()) + 1, 0)) && (callresLV(old(ncalls()) + 2, 0) != LNil ==> pushed(L, 0) == callresLV(old(ncalls()) + 2, 0)) && (callresLV(old(ncalls()) + 2, 0) == LNil ==> isStr(pushed(L, 0)))
 //@ modifies everything
 
 // host registration: package.preload[name] is set to a new Go function wrapping exactly the given loader (two reads, one store)
 //@ func (*LState).PreloadModule [C20]
-//@ requires Inv_api(ls) && ls.G != nil && (ls.currentFrame != nil ==> ls.currentFrame.Fn != nil)
+//@ requires IdxOK(ls) && ls.G != nil && ite(ls.currentFrame == nil, ls.Env != nil, ls.currentFrame.Fn.Env != nil)
 //@ ensures  "registers-loader": ncalls() == old(ncalls()) + 3 && callfn(old(ncalls())) == gfs() && callargStr(old(ncalls()), 2) == "package" && callfn(old(ncalls()) + 1) == gfs() && callargLV(old(ncalls()) + 1, 1) == callresLV(old(ncalls()), 0) && callargStr(old(ncalls()) + 1, 2) == "preload" && callfn(old(ncalls()) + 2) == sfs() && callargLV(old(ncalls()) + 2, 1) == callresLV(old(ncalls()) + 1, 0) && isTab(callresLV(old(ncalls()) + 1, 0)) && callargStr(old(ncalls()) + 2, 2) == name && isFn(callargLV(old(ncalls()) + 2, 3)) && fn(callargLV(old(ncalls()) + 2, 3)).IsG && fn(callargLV(old(ncalls()) + 2, 3)).GFunction == loader
 //@ modifies everything
 
